@@ -105,6 +105,16 @@ class ConcreteRT:
         return self.store(ct, v, "return")
 
 
+def _dbl(v: Any) -> Any:
+    from .fp import FPVal, F64
+
+    if isinstance(v, FPVal):
+        return v.to(F64)
+    if K.eng().fp_precise and isinstance(v, K.SInt):
+        return FPVal.of(v, F64)
+    return K.kfloat(v)
+
+
 class SymbolicRT:
     """C semantics on ksym values.  Every C-int store/operation is a proof obligation
     'no overflow'; a violated obligation is recorded (a divergence candidate: Python ints do not
@@ -138,7 +148,7 @@ class SymbolicRT:
         if ct == "bint":
             return K.kbool(v)
         if ct == "double":
-            return K.kfloat(v)
+            return _dbl(v)
         if ct == "float":
             raise K.HarnessError("float32 parameters not modelled")
         return v
@@ -151,7 +161,7 @@ class SymbolicRT:
         if ct == "bint":
             return K.kbool(v)
         if ct == "double":
-            return K.kfloat(v)
+            return _dbl(v)
         if ct == "float":
             from .fp import FPVal, F32
 
@@ -164,7 +174,7 @@ class SymbolicRT:
                 return self._fit(K.kint(v), ct, "cast from double")
             return self._fit(v, ct, "cast")
         if ct == "double":
-            return K.kfloat(v)
+            return _dbl(v)
         if ct == "float":
             from .fp import FPVal, F32
 
